@@ -1051,6 +1051,11 @@ fn run(a: &Args) {
                         for t in t3 {
                             let (p, m) = t.split_once('\t').unwrap();
                             rep.t3(p, m);
+                            // a connection that is never served although the server runs and a worker is idle is
+                            // also C03's concern (spare capacity is always used)
+                            if a.prop == "C03" && p == "C05" && (m.contains("were served") || m.contains("stranded")) {
+                                rep.t3("C03", m);
+                            }
                         }
                         real
                     }
@@ -1676,6 +1681,14 @@ fn gen(a: &Args) {
         }
         writeln!(w, "pse workers=1 ls=xx").unwrap();
         writeln!(w, "pse workers=0 ls=tb").unwrap();
+    }
+    if prop == "C03" {
+        // a server with listeners handed over every way the builder accepts them serves what waits after a pause
+        writeln!(w, "case builder-listeners workers=1 limit=1 listeners=tcp").unwrap();
+        writeln!(w, "pse workers=1 ls=ul,tb").unwrap();
+        if thorough {
+            writeln!(w, "pse workers=2 ls=tl,ub,ul").unwrap();
+        }
     }
     if prop == "C01" {
         // every listener's connections reach THAT listener's service: real `Server`s through the public builder,
